@@ -118,13 +118,23 @@ where
             .or_default()
             .insert(v_node_index);
 
+        // on a single-edge graph a duplicate edge is either ignored (`KeepFirst`) or replaces the
+        // stored edge (`KeepLast`); the adjacency vecs must follow the edge that stays stored
+        let duplicate_on_single_edge_graph = edge_already_exists && !self.specs.multi_edges;
+        let ignore_duplicate = duplicate_on_single_edge_graph
+            && self.specs.edge_dedupe_strategy == EdgeDedupeStrategy::KeepFirst;
+        let replace_duplicate = duplicate_on_single_edge_graph
+            && self.specs.edge_dedupe_strategy == EdgeDedupeStrategy::KeepLast;
+
         // add to the successors vec
-        add_to_adjacency_vec(
+        update_adjacency_vec(
             &mut self.successors_vec,
             ordered_edge_u,
             ordered_edge_v,
             edge.weight,
             edge_already_exists,
+            ignore_duplicate,
+            replace_duplicate,
         );
 
         // add to predecessors
@@ -138,12 +148,14 @@ where
                     .entry(v_node_index)
                     .or_default()
                     .insert(u_node_index);
-                add_to_adjacency_vec(
+                update_adjacency_vec(
                     &mut self.predecessors_vec,
                     ordered_edge_v,
                     ordered_edge_u,
                     edge.weight,
                     edge_already_exists,
+                    ignore_duplicate,
+                    replace_duplicate,
                 );
             }
             false => {
@@ -155,12 +167,14 @@ where
                     .entry(v_node_index)
                     .or_default()
                     .insert(u_node_index);
-                add_to_adjacency_vec(
+                update_adjacency_vec(
                     &mut self.successors_vec,
                     ordered_edge_v,
                     ordered_edge_u,
                     edge.weight,
                     edge_already_exists,
+                    ignore_duplicate,
+                    replace_duplicate,
                 );
             }
         }
@@ -455,6 +469,41 @@ where
             Ok(_) => Ok(graph),
         }
     }
+}
+
+/**
+Updates an adjacency (successor or predecessor) vector for a new edge. An ignored duplicate
+leaves the vector unchanged, a duplicate that replaces the stored edge overwrites the weight,
+anything else is added (keeping the smallest weight of parallel edges).
+ */
+fn update_adjacency_vec(
+    adjacency_vec: &mut Vec<Vec<AdjacentNode>>,
+    u_node_index: usize,
+    v_node_index: usize,
+    weight: f64,
+    edge_already_exists: bool,
+    ignore_duplicate: bool,
+    replace_duplicate: bool,
+) {
+    if ignore_duplicate {
+        return;
+    }
+    if replace_duplicate {
+        for adj in adjacency_vec[u_node_index]
+            .iter_mut()
+            .filter(|adj| adj.node_index == v_node_index)
+        {
+            adj.weight = weight;
+        }
+        return;
+    }
+    add_to_adjacency_vec(
+        adjacency_vec,
+        u_node_index,
+        v_node_index,
+        weight,
+        edge_already_exists,
+    );
 }
 
 /**
